@@ -21,8 +21,29 @@ fn statements() -> Vec<String> {
     v
 }
 
+/// second world: a regex table with a DEFAULT column (lines that match no pattern are still rows) and joins
+const RDEF: &str = "CREATE TABLE d(line = '^([a-z]+) ([0-9]+)?$', line[1] => k TEXT, line[2] => v INT DEFAULT 7);";
+
+fn rlines() -> Vec<&'static str> {
+    vec!["a 1", "b 2", "a ", "ZZZ", "", "b 5"]
+}
+
+fn statements2(joined: &str) -> Vec<String> {
+    vec![
+        "SELECT k, COUNT(*), SUM(v) FROM d GROUP BY k".into(),
+        "SELECT COUNT(*), MIN(v), COUNT(k) FROM d".into(),
+        "SELECT DISTINCT v FROM d".into(),
+        "SELECT k, v FROM d WHERE v = 7".into(),
+        format!("SELECT t.k, COUNT(*), SUM(y) FROM t INNER JOIN u::'{}' ON t.k = u.k GROUP BY t.k", joined),
+        format!("SELECT t.k, COUNT(*), SUM(y), COUNT(y) FROM t OUTER JOIN u::'{}' ON t.k = u.k GROUP BY t.k", joined),
+        format!("SELECT COUNT(*), MAX(v) FROM t OUTER JOIN u::'{}' ON u.k = t.k", joined),
+        format!("SELECT t.k, v, y FROM t OUTER JOIN u::'{}' ON t.k = u.k", joined),
+        format!("SELECT DISTINCT y FROM t INNER JOIN u::'{}' ON t.k = u.k WHERE v > 1", joined),
+    ]
+}
+
 fn check_history(tables: &Tables, stmt_text: &str, si: usize, hist: &[u8]) -> (Vec<Failure>, bool, u64) {
-    let al = jlines();
+    let al = if stmt_text.contains(" FROM d") { rlines() } else { jlines() };
     let lines: Vec<&str> = hist.iter().map(|i| al[*i as usize]).collect();
     let st = sut::parse(stmt_text).expect(stmt_text);
     let mut out = Vec::new();
@@ -89,8 +110,10 @@ fn check_history(tables: &Tables, stmt_text: &str, si: usize, hist: &[u8]) -> (V
 
 pub fn run(ctx: &Ctx) -> i32 {
     let col = Arc::new(Collector::new());
-    let tables = Arc::new(sut::make_tables(JDEF).unwrap());
-    let stmts = statements();
+    let tables = Arc::new(sut::make_tables(&format!("{}\n{}\n{}", JDEF, JDEF_U, RDEF)).unwrap());
+    let joined_tmp = sut::TempFiles::new(&[b"{\"k\":\"a\",\"y\":1}\nnoise\n{\"k\":\"a\",\"y\":2}\n{\"k\":\"c\",\"y\":3}\n{\"y\":4}\n"]);
+    let mut stmts = statements();
+    stmts.extend(statements2(&joined_tmp.paths[0]));
     let depth = ctx.tier.pick(4, 5);
     let k = jlines().len() as u8;
     let mut complete = true;
@@ -139,7 +162,7 @@ pub fn run(ctx: &Ctx) -> i32 {
 }
 
 pub fn replay(case: &J) -> Vec<Failure> {
-    let tables = sut::make_tables(JDEF).unwrap();
+    let tables = sut::make_tables(&format!("{}\n{}\n{}", JDEF, JDEF_U, RDEF)).unwrap();
     let hist: Vec<u8> = case["history"].as_array().unwrap().iter().map(|x| x.as_u64().unwrap() as u8).collect();
     check_history(&tables, case["statement"].as_str().unwrap(), case["stmt"].as_u64().unwrap() as usize, &hist).0
 }
